@@ -97,6 +97,9 @@ class IC10Operand:
             value = int(value)
         elif isinstance(value, float) and int(value) == value:
             value = int(value)
+        elif value is None:
+            # the result of a function without return value, a device without pin or id
+            raise utils.CompilerError("Expression has no value that an instruction can use", None)
         self.value = value
 
     @property
